@@ -748,6 +748,7 @@ func run(c *lib.Ctx) {
 	silence()
 	ctx = c
 	tmpRoot = c.TmpDir
+	phaseSchedules(c)
 	if pf := os.Getenv("VERIF_C12_PROF"); pf != "" {
 		f, _ := os.Create(fmt.Sprintf("%s.%d", pf, c.ShardI))
 		_ = pprof.StartCPUProfile(f)
@@ -852,6 +853,9 @@ func cpuSeconds() float64 {
 func replay(c *lib.Ctx, raw json.RawMessage) string {
 	silence()
 	tmpRoot = c.TmpDir
+	if len(raw) > 0 && raw[0] == '{' {
+		return replaySchedules(c, raw)
+	}
 	var hist []op
 	if err := json.Unmarshal(raw, &hist); err != nil {
 		return err.Error()
@@ -892,6 +896,10 @@ func main() {
 				"max_depth":                     m.Maxes["max_depth"],
 				"cpu_seconds_total":             float64(m.Counters["cpu_ms"]) / 1000,
 				"cpu_seconds_max_process":       float64(m.Maxes["cpu_ms_max_shard"]) / 1000,
+				"schedules_explored":            m.Counters["sched_executions"],
+				"scheduling_points":             m.Counters["sched_points"],
+				"sched_scenarios_bound_1":       m.Distinct["sched_scenarios_bound_1"],
+				"sched_scenarios_bound_2":       m.Distinct["sched_scenarios_bound_2"],
 				"bfs_runs":                      m.Counters["bfs_runs"],
 				"bfs_runs_cut_by_budget":        m.Counters["bfs_runs_cut_by_budget"],
 				"skipped_boundary_landings":     m.Counters["skipped_boundary_landings"],
